@@ -699,14 +699,14 @@ theorem LogExt.consumeActive_r {s s' : State} {r : Req} {n : Nat} {e : Bool} (h 
 /-- peel the outermost state transformer off a `LogExt TxEv s _` goal -/
 macro "peel" : tactic =>
   `(tactic| first
-    | exact LogExt.refl _ _
-    | apply LogExt.stopSending_r
-    | apply LogExt.consumeActive_r
-    | apply LogExt.raise_r
-    | apply LogExt.error_r (by simp [TxEv, txErr])
-    | apply LogExt.emit_r (by simp [TxEv, txErr])
-    | apply LogExt.mk_r
-    | apply LogExt.mk_cons_r (by simp [TxEv, txErr]))
+    | with_reducible exact LogExt.refl _ _
+    | with_reducible apply LogExt.stopSending_r
+    | with_reducible apply LogExt.consumeActive_r
+    | with_reducible apply LogExt.raise_r
+    | with_reducible apply LogExt.error_r (by simp [TxEv, txErr])
+    | with_reducible apply LogExt.emit_r (by simp [TxEv, txErr])
+    | with_reducible apply LogExt.mk_r
+    | with_reducible apply LogExt.mk_cons_r (by simp [TxEv, txErr]))
 
 theorem LogExt_handleFc (s : State) (f : FcFrame) : LogExt TxEv s (s.handleFc f) := by
   unfold handleFc startRxFcTimer
@@ -736,6 +736,910 @@ theorem LogExt_transmitCf (s : State) (a : Nat) : LogExt TxEv s (s.transmitCf a)
   simp only []
   repeat' split
   all_goals repeat peel
+
+theorem txPend_log (s : State) : s.txPend.1.log = s.log := by
+  unfold txPend startRxCfTimer State.raise
+  simp only []
+  repeat' split
+  all_goals rfl
+
+theorem txPend_now (s : State) : s.txPend.1.now = s.now := by
+  unfold txPend startRxCfTimer State.raise
+  simp only []
+  repeat' split
+  all_goals rfl
+
+theorem LogExt_txFc (s : State) : LogExt TxEv s s.txFc.1 := by
+  unfold txFc
+  simp only []
+  repeat' split
+  · exact LogExt.error_r (by simp [TxEv, txErr]) (LogExt.stopSending_r (LogExt.of_eq rfl))
+  · exact LogExt.trans (LogExt.of_eq rfl) (LogExt_handleFc _ _)
+  · exact LogExt.of_eq rfl
+
+theorem txFc_now (s : State) : s.txFc.1.now = s.now := by
+  have := congrArg RxView.now (rxView_txFc s)
+  simpa [rxView] using this
+
+theorem LogExt_txFsm (s : State) (a : Nat) : LogExt TxEv s (s.txFsm a).1 := by
+  have hd : LogExt TxEv s s.txDeplete := by
+    unfold txDeplete
+    generalize (decide (s.txState ≠ .idle) && (match s.active with | some r => r.depleted | none => false) && s.standby.isNone) = c
+    cases c
+    · exact LogExt.refl _ _
+    · exact LogExt_stopSending _ _
+  have hc : LogExt TxEv s.txDeplete (s.txDeplete.txCore a).1 := by
+    generalize s.txDeplete = t
+    unfold txCore startRxFcTimer
+    simp only []
+    repeat' split
+    all_goals first
+      | exact LogExt_readTxQueue _ _ _
+      | exact LogExt_transmitCf _ _
+      | (repeat peel)
+  unfold txFsm
+  split
+  · exact LogExt.of_eq rfl
+  · refine (hd.trans hc).trans ?_
+    unfold txFinish
+    repeat' split
+    all_goals exact LogExt.of_eq rfl
+
+/-- what one `processTx` pass can log: transmit-side events, and the N_Bs timeout (stamped now) -/
+def TxPassEv (now : Nat) (e : Ev) : Prop := TxEv e ∨ e = .err now .FlowControlTimeout
+
+theorem LogExt_txTimeout (s : State) : LogExt (TxPassEv s.now) s s.txTimeout := by
+  unfold txTimeout; split
+  · refine LogExt.trans (s' := s.error .FlowControlTimeout) (LogExt.ext1 rfl (Or.inr rfl)) ?_
+    exact (LogExt_stopSending _ _).mono fun e h => Or.inl h
+  · exact LogExt.refl _ _
+
+theorem LogExt_processTx (s : State) : LogExt (TxPassEv s.now) s s.processTx.1 := by
+  rw [processTx_eq]
+  have h1 := txPend_log s
+  have n1 := txPend_now s
+  split
+  · next h' => rw [h'] at h1; exact LogExt.of_eq h1
+  · next h' => rw [h'] at h1; exact LogExt.of_eq h1
+  · next s1 h' =>
+    rw [h'] at h1 n1
+    simp only [] at h1 n1
+    have h2 := LogExt_txFc s1
+    have n2 := txFc_now s1
+    split
+    · next h'' =>
+      rw [h''] at h2
+      exact (LogExt.of_eq h1).trans (h2.mono fun e h => Or.inl h)
+    · next s2 h'' =>
+      rw [h''] at h2 n2
+      simp only [] at h2 n2
+      have h3 := LogExt_txTimeout s2
+      rw [n2, n1] at h3
+      exact ((LogExt.of_eq h1).trans (h2.mono fun e h => Or.inl h)).trans
+        (h3.trans ((LogExt_txFsm _ _).mono fun e h => Or.inl h))
+
+/-- a pass whose N_Bs check does not fire logs transmit-side events only -/
+theorem LogExt_processTx_quiet (s : State)
+    (hq : ∀ s1 s2, s.txPend = (s1, none) → s1.txFc = (s2, false) → s2.timerFc.timedOut s2.now = false) :
+    LogExt TxEv s s.processTx.1 := by
+  rw [processTx_eq]
+  have h1 := txPend_log s
+  split
+  · next h' => rw [h'] at h1; exact LogExt.of_eq h1
+  · next h' => rw [h'] at h1; exact LogExt.of_eq h1
+  · next s1 h' =>
+    rw [h'] at h1
+    simp only [] at h1
+    have h2 := LogExt_txFc s1
+    split
+    · next h'' => rw [h''] at h2; exact (LogExt.of_eq h1).trans h2
+    · next s2 h'' =>
+      rw [h''] at h2
+      simp only [] at h2
+      have h3 : s2.txTimeout = s2 := by
+        unfold txTimeout; rw [hq s1 s2 h' h'']; rfl
+      rw [h3]
+      exact ((LogExt.of_eq h1).trans h2).trans (LogExt_txFsm _ _)
+
+/-! ## N_Cr: when `checkTimeoutsRx` fires -/
+
+/-- the deadline test of a timer, spelled out -/
+theorem timedOut_iff (t : Timer) (now : Nat) :
+    t.timedOut now = true ↔ ∃ t0, t.start = some t0 ∧ (now - t0 > t.timeout ∨ t.timeout = 0) := by
+  unfold Timer.timedOut
+  cases t.start <;> simp
+
+/-- N_Cr expired: the configured timeout has been exceeded since the timer was (re)started -/
+def RxDeadlineMissed (s : State) : Prop :=
+  ∃ t0, s.timerCf.start = some t0 ∧ (s.now - t0 > s.cfg.tCf ∨ s.cfg.tCf = 0)
+
+theorem rxDeadlineMissed_iff (s : State) (h : s.timerCf.timeout = s.cfg.tCf) :
+    RxDeadlineMissed s ↔ s.timerCf.timedOut s.now = true := by
+  rw [timedOut_iff, h]; rfl
+
+theorem checkTimeoutsRx_fire (s : State) (h : s.timerCf.timeout = s.cfg.tCf) (hd : RxDeadlineMissed s) :
+    s.checkTimeoutsRx =
+      { s with log := .err s.now .ConsecutiveFrameTimeout :: s.log, actualRxdl := none, rxState := .idle,
+               rxBuf := [], pendingFc := false, lastFc := none,
+               timerCf := { start := none, timeout := s.cfg.tCf } } := by
+  unfold checkTimeoutsRx
+  rw [(rxDeadlineMissed_iff s h).mp hd]
+  simp [stopReceiving, State.error, emit, Timer.stop, h]
+
+theorem checkTimeoutsRx_id (s : State) (h : s.timerCf.timeout = s.cfg.tCf) (hd : ¬ RxDeadlineMissed s) :
+    s.checkTimeoutsRx = s := by
+  unfold checkTimeoutsRx
+  rw [rxDeadlineMissed_iff s h] at hd
+  simp [hd]
+
+/-- the timer cannot be expired while idle -/
+theorem not_rxDeadlineMissed_of_idle (s : State) (h : RxTimerInv s) (hi : s.rxState = .idle) :
+    ¬ RxDeadlineMissed s := by
+  rintro ⟨t0, h0, _⟩
+  rw [h.1 hi] at h0; cases h0
+
+/-- before the deadline -/
+theorem not_rxDeadlineMissed_of_le (s : State) (t0 : Nat) (h0 : s.timerCf.start = some t0)
+    (hpos : 0 < s.cfg.tCf) (hle : s.now ≤ t0 + s.cfg.tCf) : ¬ RxDeadlineMissed s := by
+  rintro ⟨t1, h1, h2⟩
+  rw [h0] at h1; cases h1
+  omega
+
+/-! ## one step of the rx loop -/
+
+/-- what `rxLoop` does with the head of the inbox before looking at the address: the clock advances
+    by the blocking delay, the frame is logged, N_Cr is checked -/
+def rxArrive (s : State) (dt : Nat) (m : CanMsg) (rest : List (Nat × CanMsg)) : State :=
+  (({ s with inbox := rest, now := s.now + dt } : State).emit (.rx (s.now + dt) m)).checkTimeoutsRx
+
+theorem rxLoop_cons_forMe (doTx : Bool) (s : State) (st : Stats) (dt : Nat) (m : CanMsg)
+    (rest : List (Nat × CanMsg)) (hme : s.addr.rx.isForMe m = true) :
+    rxLoop doTx s st ((dt, m) :: rest) =
+      (let r := (s.rxArrive dt m rest).processRx m
+       let st1 : Stats := { st with received := st.received + 1, processed := st.processed + 1 }
+       let st' : Stats := if r.2.2 then { st1 with frames := st1.frames + 1 } else st1
+       if r.2.1 then (r.1, st', false)
+       else if doTx && r.1.txTimeDriven then (r.1, st', true)
+       else rxLoop doTx r.1 st' rest) := by
+  have ha : ∀ x : State, x.checkTimeoutsRx.addr = x.addr := fun x => by
+    have := congrArg TxView.addr (txView_checkTimeoutsRx x)
+    simpa [txView] using this
+  rw [rxLoop]
+  simp only [ha, emit, hme, if_true, rxArrive]
+  rfl
+
+/-! ## accepted frames restart N_Cr -/
+
+/-- an in-sequence Consecutive Frame in WAIT_CF whose RX_DL is acceptable -/
+structure CfInSeq (s : State) (m : CanMsg) (d : Decoded) (sn : Nat) (data : Bytes) : Prop where
+  dec : decode m.data s.addr.rx.rxPrefixSize = some d
+  pdu : d.pdu = .cf sn data
+  wait : s.rxState = .waitCf
+  seq : sn = (s.lastSeq + 1) % 16
+  rxdl : some d.rxDl = s.actualRxdl ∨ s.rxFrameLen - s.rxBuf.length ≤ d.rxDl
+
+/-- the buffer after an accepted Consecutive Frame -/
+def cfBuf (s : State) (data : Bytes) : Bytes := s.rxBuf ++ data.take (s.rxFrameLen - s.rxBuf.length)
+
+/-- last frame of the message: delivered, nothing else logged, reception closed -/
+theorem processRx_cf_last {s : State} {m : CanMsg} {d : Decoded} {sn : Nat} {data : Bytes}
+    (h : CfInSeq s m d sn data) (hl : s.rxFrameLen ≤ (s.cfBuf data).length) :
+    (s.processRx m).1.log = .deliver (s.cfBuf data) :: s.log ∧
+    (s.processRx m).1.rxQueue = s.rxQueue ++ [s.cfBuf data] ∧
+    (s.processRx m).1.rxState = .idle ∧ (s.processRx m).1.timerCf.start = none ∧
+    (s.processRx m).2.2 = true := by
+  obtain ⟨h1, h2, h3, h4, h5⟩ := h
+  unfold cfBuf at hl
+  have h6 : (some d.rxDl != s.actualRxdl && decide (d.rxDl < s.rxFrameLen - s.rxBuf.length)) = false := by
+    rcases h5 with h5 | h5
+    · simp [h5]
+    · simp; intro _; omega
+  unfold processRx
+  simp only [h1, h2, h3, h4, if_true, h6]
+  simp only [List.length_append, List.length_take] at hl
+  simp [startRxCfTimer, deliver, emit, stopReceiving, Timer.stop, cfBuf, hl]
+
+/-- intermediate frame: appended, nothing logged, N_Cr restarted now (or, at the end of a block,
+    stopped until the ContinueToSend that has just been requested goes out) -/
+theorem processRx_cf_more {s : State} {m : CanMsg} {d : Decoded} {sn : Nat} {data : Bytes}
+    (h : CfInSeq s m d sn data) (hl : (s.cfBuf data).length < s.rxFrameLen) :
+    (s.processRx m).1.log = s.log ∧
+    (s.processRx m).1.rxBuf = s.cfBuf data ∧ (s.processRx m).1.lastSeq = sn ∧
+    (s.processRx m).1.rxQueue = s.rxQueue ∧
+    (s.processRx m).1.rxState = .waitCf ∧
+    ((s.processRx m).1.timerCf.start = some s.now ∨
+      ((s.processRx m).1.timerCf.start = none ∧ (s.processRx m).1.pendingFc = true ∧
+        (s.processRx m).1.pendingFcStatus = some 0)) ∧
+    (s.processRx m).2.2 = false := by
+  obtain ⟨h1, h2, h3, h4, h5⟩ := h
+  unfold cfBuf at hl
+  have h6 : (some d.rxDl != s.actualRxdl && decide (d.rxDl < s.rxFrameLen - s.rxBuf.length)) = false := by
+    rcases h5 with h5 | h5
+    · simp [h5]
+    · simp; intro _; omega
+  simp only [List.length_append, List.length_take] at hl
+  have h7 : ¬ (s.rxFrameLen ≤ s.rxBuf.length + min (s.rxFrameLen - s.rxBuf.length) data.length) := by omega
+  unfold processRx
+  simp only [h1, h2, h3, h4, if_true, h6]
+  simp only [startRxCfTimer, requestFc, cfBuf, ge_iff_le, List.length_append, List.length_take, h7,
+    if_false, Bool.false_eq_true]
+  grind [Timer.stop]
+
+/-- a First Frame that starts a reception -/
+structure FfAccepted (s : State) (m : CanMsg) (d : Decoded) (len : Nat) (data : Bytes) (esc : Bool) : Prop where
+  dec : decode m.data s.addr.rx.rxPrefixSize = some d
+  pdu : d.pdu = .ff len data esc
+  dl : validTxDl d.rxDl = true
+  fits : len ≤ s.cfg.maxFrameSize
+
+/-- an accepted First Frame (in any state) opens the reception, requests the ContinueToSend and
+    starts N_Cr now -/
+theorem processRx_ff_start {s : State} {m : CanMsg} {d : Decoded} {len : Nat} {data : Bytes} {esc : Bool}
+    (h : FfAccepted s m d len data esc) :
+    (s.processRx m).1.rxState = .waitCf ∧ (s.processRx m).1.rxBuf = data ∧
+    (s.processRx m).1.rxFrameLen = len ∧
+    (s.processRx m).1.timerCf = { start := some s.now, timeout := s.cfg.tCf } ∧
+    (s.processRx m).1.pendingFc = true ∧ (s.processRx m).1.pendingFcStatus = some 0 := by
+  obtain ⟨h1, h2, h3, h4⟩ := h
+  have h5 : ¬ (len > s.cfg.maxFrameSize) := by omega
+  unfold processRx startReception
+  simp only [h1, h2]
+  cases hs : s.rxState <;>
+    simp [h3, h5, requestFc, startRxCfTimer, State.error, emit]
+
+/-- the receive side is up to date with its timer: N_Cr has been (re)started at the current instant,
+    or is stopped with the ContinueToSend still to be handed out -/
+def RxFresh (s : State) : Prop :=
+  s.timerCf.start = some s.now ∨
+    (s.timerCf.start = none ∧ s.pendingFc = true ∧ s.pendingFcStatus = some 0)
+
+/-- whatever the configuration (listen mode or not, any blocksize), a tx pass right after an accepted
+    frame leaves N_Cr running from the current instant -/
+theorem processTx_timerCf_of_fresh (s : State) (h : RxFresh s) :
+    s.processTx.1.timerCf.start = some s.now := by
+  have h1 := congrArg RxView.timerCf (rxView_processTx_of_txPend s)
+  simp only [rxView] at h1
+  rw [h1]
+  unfold RxFresh at h
+  unfold txPend
+  grind [State.raise, startRxCfTimer]
+
+/-- handing out the ContinueToSend restarts N_Cr -/
+theorem processTx_restarts_timerCf (s : State) (hp : s.pendingFc = true) (hs : s.pendingFcStatus = some 0) :
+    s.processTx.1.timerCf = { start := some s.now, timeout := s.cfg.tCf } := by
+  have h1 := congrArg RxView.timerCf (rxView_processTx_of_txPend s)
+  simp only [rxView] at h1
+  rw [h1]
+  unfold txPend
+  simp only [hp, hs, if_true]
+  split <;> simp [startRxCfTimer, State.raise]
+  split <;> simp [State.raise]
+
+/-! ## N_Bs -/
+
+/-- N_Bs expired -/
+def TxDeadlineMissed (s : State) : Prop :=
+  ∃ t0, s.timerFc.start = some t0 ∧ (s.now - t0 > s.cfg.tFc ∨ s.cfg.tFc = 0)
+
+theorem txDeadlineMissed_iff (s : State) (h : s.timerFc.timeout = s.cfg.tFc) :
+    TxDeadlineMissed s ↔ s.timerFc.timedOut s.now = true := by
+  rw [timedOut_iff, h]; rfl
+
+theorem not_timedOut_of_not_waitFc (s : State) (h : TxTimerInv s) (hs : s.txState ≠ .waitFc) (now : Nat) :
+    s.timerFc.timedOut now = false := by
+  simp [Timer.timedOut, h.1 hs]
+
+theorem txPend_tx (s : State) :
+    s.txPend.1.txState = s.txState ∧ s.txPend.1.timerFc = s.timerFc ∧ s.txPend.1.cfg = s.cfg ∧
+    s.txPend.1.txQueue = s.txQueue ∧ s.txPend.1.active = s.active ∧ s.txPend.1.lastFc = s.lastFc ∧
+    s.txPend.1.rl = s.rl := by
+  unfold txPend startRxCfTimer State.raise
+  simp only []
+  repeat' split
+  all_goals simp
+
+theorem txFc_idle (s : State) (hi : s.txState = .idle) : s.txFc.1.txState = .idle := by
+  unfold txFc handleFc
+  simp only [hi, if_true]
+  repeat' split
+  all_goals simp [stopSending_fc, State.error, emit, hi]
+
+/-- no N_Bs timeout is reported by a pass that starts with the transmitter idle -/
+theorem processTx_idle_quiet (s : State) (h : TxTimerInv s) (hi : s.txState = .idle) :
+    LogExt TxEv s s.processTx.1 := by
+  apply LogExt_processTx_quiet
+  intro s1 s2 h1 h2
+  have hp := txPend_tx s
+  have hI1 := TxTimerInv_txPend s h
+  rw [h1] at hp hI1
+  simp only [] at hp hI1
+  have hI2 := TxTimerInv_txFc s1 hI1
+  have hi2 := txFc_idle s1 (by rw [hp.1, hi])
+  rw [h2] at hI2 hi2
+  exact not_timedOut_of_not_waitFc s2 hI2 (by simp only [] at hi2; rw [hi2]; simp) _
+
+/-- the state in which an N_Bs timeout leaves the layer: mailbox emptied, error reported, transmission
+    stopped with failure -/
+def txTimedOutState (s : State) : State :=
+  (({ s with lastFc := none } : State).error .FlowControlTimeout).stopSending false
+
+theorem txTimedOutState_log (s : State) (r : Req) (ha : s.active = some r) :
+    s.txTimedOutState.log = .done r.id false :: .err s.now .FlowControlTimeout :: s.log := by
+  simp [txTimedOutState, stopSending, State.error, emit, ha]
+
+theorem txTimedOutState_fields (s : State) :
+    s.txTimedOutState.txState = .idle ∧ s.txTimedOutState.timerFc.start = none ∧
+    s.txTimedOutState.active = none ∧ s.txTimedOutState.standby = none ∧
+    s.txTimedOutState.txQueue = s.txQueue ∧ s.txTimedOutState.lastFc = none := by
+  unfold txTimedOutState stopSending
+  simp only []
+  split <;> simp_all [State.error, emit, Timer.stop]
+
+/-- N_Bs expired in WAIT_FC: whatever Flow Control (other than Overflow) sits in the mailbox is not
+    honoured; the pass continues from the failed, idle state -/
+theorem processTx_fc_timeout (s : State) (hp : s.pendingFc = false) (hw : s.txState = .waitFc)
+    (hto : s.timerFc.timeout = s.cfg.tFc) (hd : TxDeadlineMissed s)
+    (hov : ∀ f, s.lastFc = some f → f.status ≠ 2) :
+    s.processTx = s.txTimedOutState.txFsm (s.rl.allowedBytes s.cfg.rlBitMax) := by
+  have ht := (txDeadlineMissed_iff s hto).mp hd
+  have h1 : s.txPend = (s, none) := by unfold txPend; simp [hp]
+  have h2 : s.txFc = ({ s with lastFc := none }, false) := by
+    unfold txFc
+    cases hf : s.lastFc with
+    | none => rfl
+    | some f =>
+      have := hov f hf
+      simp only [this, if_false]
+      unfold handleFc
+      simp [hw, ht]
+  have h3 : ({ s with lastFc := none } : State).txTimeout = s.txTimedOutState := by
+    unfold txTimeout txTimedOutState
+    simp [ht]
+  rw [processTx_eq, h1]
+  simp only [h2, h3]
+
+/-- an idle transmitter with nothing queued: the FSM stage does nothing -/
+theorem txFsm_idle_empty (s : State) (a : Nat) (hi : s.txState = .idle) (hq : s.txQueue = []) :
+    s.txFsm a = (s, none, false) := by
+  cases s
+  simp only [] at hi hq
+  subst hi hq
+  simp [txFsm, txDeplete, txCore, txFinish, readTxQueue]
+
+/-- N_Bs expired, nothing else queued: exactly one FlowControlTimeoutError, the request completed
+    with failure, no frame, FSM idle with the timer stopped -/
+theorem processTx_fc_timeout_empty (s : State) (hp : s.pendingFc = false) (hw : s.txState = .waitFc)
+    (hto : s.timerFc.timeout = s.cfg.tFc) (hd : TxDeadlineMissed s)
+    (hov : ∀ f, s.lastFc = some f → f.status ≠ 2) (hq : s.txQueue = []) :
+    s.processTx = (s.txTimedOutState, none, false) := by
+  rw [processTx_fc_timeout s hp hw hto hd hov]
+  have := txTimedOutState_fields s
+  exact txFsm_idle_empty _ _ this.1 (by rw [this.2.2.2.2.1, hq])
+
+/-- N_Bs expired (any queue): beyond the timeout report only ordinary transmit events follow -/
+theorem processTx_fc_timeout_log (s : State) (hp : s.pendingFc = false) (hw : s.txState = .waitFc)
+    (hto : s.timerFc.timeout = s.cfg.tFc) (hd : TxDeadlineMissed s)
+    (hov : ∀ f, s.lastFc = some f → f.status ≠ 2) :
+    LogExt TxEv s.txTimedOutState s.processTx.1 := by
+  rw [processTx_fc_timeout s hp hw hto hd hov]
+  exact LogExt_txFsm _ _
+
+/-- an Overflow Flow Control ends the transmission by itself, deadline or not: no timeout report -/
+theorem processTx_overflow (s : State) (hp : s.pendingFc = false) (f : FcFrame) (hf : s.lastFc = some f)
+    (h2 : f.status = 2) :
+    s.processTx = ((({ s with lastFc := none } : State).stopSending false).error .Overflow, none, false) := by
+  have h1 : s.txPend = (s, none) := by unfold txPend; simp [hp]
+  rw [processTx_eq, h1]
+  simp only [txFc, hf, h2, if_true]
+
+/-- before the deadline the mailbox stage never leaves an expired timer behind -/
+theorem txFc_not_timedOut (s : State) (hto : s.timerFc.timeout = s.cfg.tFc) (hpos : 0 < s.cfg.tFc)
+    (hd : ¬ TxDeadlineMissed s) : s.txFc.1.timerFc.timedOut s.now = false := by
+  rw [txDeadlineMissed_iff s hto] at hd
+  unfold txFc handleFc
+  simp only []
+  repeat' split
+  all_goals simp_all [stopSending_fc, State.error, emit, Timer.stop, Timer.timedOut, startRxFcTimer]
+  all_goals omega
+
+/-- a pass before the N_Bs deadline reports no timeout -/
+theorem processTx_before_deadline (s : State) (hp : s.pendingFc = false)
+    (hto : s.timerFc.timeout = s.cfg.tFc) (hpos : 0 < s.cfg.tFc) (hd : ¬ TxDeadlineMissed s) :
+    LogExt TxEv s s.processTx.1 := by
+  apply LogExt_processTx_quiet
+  intro s1 s2 h1 h2
+  have h1' : s.txPend = (s, none) := by unfold txPend; simp [hp]
+  rw [h1'] at h1
+  cases h1
+  have := txFc_not_timedOut s hto hpos hd
+  rw [h2] at this
+  have hn := txFc_now s
+  rw [h2] at hn
+  simp only [] at this hn
+  rw [hn]; exact this
+
+/-- the state after an honoured ContinueToSend in WAIT_FC -/
+def ctsState (s : State) (f : FcFrame) : State :=
+  { s with lastFc := none, wftCnt := 0, timerFc := { start := none, timeout := s.timerFc.timeout },
+           timerStmin := { start := some s.now,
+                           timeout := match s.cfg.overrideStminNs with | some o => o | none => stminNs f.stmin },
+           remoteBs := some f.bs, txBlockCnt := 0, txState := .transmitCf }
+
+/-- a ContinueToSend processed before the deadline is honoured: N_Bs stopped, FSM in TRANSMIT_CF,
+    and the pass goes on sending from there -/
+theorem processTx_cts_honoured (s : State) (hp : s.pendingFc = false) (hw : s.txState = .waitFc)
+    (hto : s.timerFc.timeout = s.cfg.tFc) (hd : ¬ TxDeadlineMissed s)
+    (f : FcFrame) (hf : s.lastFc = some f) (h0 : f.status = 0) :
+    s.processTx = (s.ctsState f).txFsm (s.rl.allowedBytes s.cfg.rlBitMax) := by
+  rw [txDeadlineMissed_iff s hto] at hd
+  have h1 : s.txPend = (s, none) := by unfold txPend; simp [hp]
+  have h2 : s.txFc = (s.ctsState f, false) := by
+    unfold txFc
+    simp only [hf, h0]
+    unfold handleFc ctsState
+    simp [hw, hd, h0, Timer.stop, Timer.startAt]
+    rfl
+  have h3 : (s.ctsState f).txTimeout = s.ctsState f := by
+    unfold txTimeout ctsState
+    simp [Timer.timedOut]
+  rw [processTx_eq, h1]
+  simp only [h2, h3]
+
+/-- an accepted Wait before the deadline restarts N_Bs now -/
+theorem txFc_wait_restarts (s : State) (hw : s.txState = .waitFc)
+    (hto : s.timerFc.timeout = s.cfg.tFc) (hd : ¬ TxDeadlineMissed s)
+    (f : FcFrame) (hf : s.lastFc = some f) (h1 : f.status = 1)
+    (hmax : s.wftCnt < s.cfg.wftmax) :
+    s.txFc = ({ s with lastFc := none, wftCnt := s.wftCnt + 1, txState := .waitFc,
+                       timerFc := { start := some s.now, timeout := s.cfg.tFc } }, false) := by
+  rw [txDeadlineMissed_iff s hto] at hd
+  have hm : ¬ (s.cfg.wftmax = 0) := by omega
+  have hm2 : ¬ (s.wftCnt ≥ s.cfg.wftmax) := by omega
+  unfold txFc
+  simp only [hf, h1]
+  unfold handleFc
+  simp [hw, hd, hm, hm2, h1, startRxFcTimer]
+
+
+/-! ## listen mode -/
+
+/-- a listener with no user request: listen mode, nothing queued, transmitter idle -/
+def Quiet (s : State) : Prop := s.cfg.listen = true ∧ s.txQueue = [] ∧ s.txState = .idle
+
+theorem Quiet_of_txView {s s' : State} (h : s'.txView = s.txView) (hq : Quiet s) : Quiet s' := by
+  unfold Quiet at *
+  simp only [txView, TxView.mk.injEq] at h
+  obtain ⟨h1, _, _, h2, h3, _⟩ := h
+  rw [h1, h2, h3]; exact hq
+
+/-- in listen mode the pending-Flow-Control stage never yields a frame -/
+theorem txPend_listen (s : State) (hl : s.cfg.listen = true) (m : CanMsg) :
+    s.txPend.2 ≠ some (some m) := by
+  unfold txPend
+  simp only []
+  repeat' split
+  all_goals simp_all [startRxCfTimer]
+
+theorem Quiet_txPend (s : State) (hq : Quiet s) : Quiet s.txPend.1 := by
+  have := txPend_tx s
+  unfold Quiet at *
+  rw [this.2.2.1, this.2.2.2.1, this.1]; exact hq
+
+theorem Quiet_stopSending (s : State) (b : Bool) (hq : Quiet s) : Quiet (s.stopSending b) := by
+  unfold Quiet at *
+  unfold stopSending; split <;> simp_all [emit]
+
+theorem Quiet_handleFc (s : State) (f : FcFrame) (hq : Quiet s) : Quiet (s.handleFc f) := by
+  unfold handleFc
+  rw [if_pos hq.2.2]
+  simpa [Quiet, State.error, emit] using hq
+
+theorem Quiet_txFc (s : State) (hq : Quiet s) : Quiet s.txFc.1 := by
+  have h0 : Quiet ({ s with lastFc := none } : State) := by simpa [Quiet] using hq
+  unfold txFc
+  simp only []
+  split
+  · split
+    · have := Quiet_stopSending _ false h0
+      simpa [Quiet, State.error, emit] using this
+    · exact Quiet_handleFc _ _ h0
+  · exact h0
+
+theorem Quiet_txTimeout (s : State) (hq : Quiet s) : Quiet s.txTimeout := by
+  unfold txTimeout; split
+  · exact Quiet_stopSending _ _ (by simpa [Quiet, State.error, emit] using hq)
+  · exact hq
+
+/-- a quiet listener: one transmit pass outputs nothing and stays quiet -/
+theorem Quiet_processTx (s : State) (hq : Quiet s) : s.processTx.2.1 = none ∧ Quiet s.processTx.1 := by
+  rw [processTx_eq]
+  have h1 := Quiet_txPend s hq
+  have hl := txPend_listen s hq.1
+  split
+  · next h' => rw [h'] at h1; exact ⟨rfl, h1⟩
+  · next msg h' => rw [h'] at hl; exact absurd rfl (hl msg)
+  · next s1 h' =>
+    rw [h'] at h1
+    have h2 := Quiet_txFc s1 h1
+    split
+    · next h'' => rw [h''] at h2; exact ⟨rfl, h2⟩
+    · next s2 h'' =>
+      rw [h''] at h2
+      have h3 := Quiet_txTimeout s2 h2
+      rw [txFsm_idle_empty _ _ h3.2.2 h3.2.1]
+      exact ⟨rfl, h3⟩
+
+/-- no event of the kind "frame handed to txfn" -/
+def NotTx (e : Ev) : Prop := ∀ t m, e ≠ .tx t m
+
+theorem NotTx_of_RxEv (e : Ev) (h : RxEv e) : NotTx e := by
+  intro t m he; subst he; exact h
+
+theorem NotTx_of_TxPassEv (now : Nat) (e : Ev) (h : TxPassEv now e) : NotTx e := by
+  intro t m he; subst he
+  rcases h with h | h
+  · exact h
+  · cases h
+
+/-- quiet, and nothing handed to `txfn` since `s0` -/
+def QuietSince (s0 s : State) : Prop := Quiet s ∧ LogExt NotTx s0 s
+
+theorem QuietSince_loopInv (s0 : State) : LoopInv (QuietSince s0) where
+  glue s ib now h := ⟨by simpa [Quiet] using h.1, h.2.trans (LogExt.of_eq rfl)⟩
+  rxEv s m h := ⟨Quiet_of_txView (by simp [txView, emit]) h.1,
+    h.2.trans (LogExt.ext1 rfl (by intro t m' he; cases he))⟩
+  rxNone s h := ⟨Quiet_of_txView (by simp [txView, emit]) h.1,
+    h.2.trans (LogExt.ext1 rfl (by intro t m' he; cases he))⟩
+  chk s h := ⟨Quiet_of_txView (txView_checkTimeoutsRx s) h.1,
+    h.2.trans ((LogExt_checkTimeoutsRx s).mono (by intro e he t m h'; subst he; cases h'))⟩
+  prx s m h := ⟨Quiet_of_txView (txView_processRx s m) h.1,
+    h.2.trans ((LogExt_processRx s m).mono NotTx_of_RxEv)⟩
+  rl s l h := ⟨by simpa [Quiet] using h.1, h.2.trans (LogExt.of_eq rfl)⟩
+  ptx s h := ⟨(Quiet_processTx s h.1).2, h.2.trans ((LogExt_processTx s).mono (NotTx_of_TxPassEv _))⟩
+  txEv s m h hm := by
+    rw [(Quiet_processTx s h.1).1] at hm; cases hm
+
+/-- whatever is in the inbox, `process` hands nothing to `txfn` and the listener stays quiet -/
+theorem Quiet_process (s : State) (doRx doTx : Bool) (hq : Quiet s) :
+    Quiet (s.process doRx doTx).1 ∧ LogExt NotTx s (s.process doRx doTx).1 :=
+  (QuietSince_loopInv s).process doRx doTx s ⟨hq, LogExt.refl _ _⟩
+
+end State
+
+
+/-! ## a reference receiver without timers, Flow Control, block counting or listen mode -/
+
+/-- what an observer of the receive side hears -/
+inductive Heard where
+  | payload (p : Bytes)
+  | error (c : Err)
+  deriving DecidableEq, Repr
+
+/-- deliveries, and the error classes reported by `_process_rx` -/
+def heardOf : Ev → Option Heard
+  | .deliver p => some (.payload p)
+  | .err _ c => if State.rxErr c then some (.error c) else none
+  | _ => none
+
+/-- the reassembly state proper -/
+structure RxCore where
+  rxState : RxSt
+  rxBuf : Bytes
+  rxFrameLen : Nat
+  lastSeq : Nat
+  actualRxdl : Option Nat
+  rxQueue : List Bytes
+  heard : List Heard          -- newest first, as the log
+  deriving DecidableEq, Repr
+
+namespace RxCore
+def fail (c : RxCore) (e : Err) : RxCore := { c with heard := .error e :: c.heard }
+def close (c : RxCore) : RxCore := { c with actualRxdl := none, rxState := .idle, rxBuf := [] }
+def put (c : RxCore) (p : Bytes) : RxCore :=
+  { c with heard := .payload p :: c.heard, rxQueue := c.rxQueue ++ [p] }
+
+/-- First Frame: open a reception if the frame is acceptable -/
+def start (maxLen : Nat) (c : RxCore) (len : Nat) (data : Bytes) (rxDl : Nat) : RxCore :=
+  if !(validTxDl rxDl) then (c.fail .InvalidCanFdFirstFrameRXDL).close
+  else if len > maxLen then { (c.fail .FrameTooLong).close with lastSeq := 0 }
+  else { c with actualRxdl := some rxDl, rxState := .waitCf, rxFrameLen := len, rxBuf := data, lastSeq := 0 }
+
+/-- one frame: new reassembly state, and whether a complete message was received -/
+def step (pfx maxLen : Nat) (c : RxCore) (m : CanMsg) : RxCore × Bool :=
+  match decode m.data pfx with
+  | none => ((c.fail .InvalidCanData).close, false)
+  | some d =>
+    match d.pdu with
+    | .fc _ _ _ => (c, false)
+    | .sf _ data esc =>
+      if d.canDl > 8 && !esc then (c.fail .MissingEscapeSequence, false)
+      else match c.rxState with
+        | .idle => (({ c with rxFrameLen := 0 } : RxCore).put data, true)
+        | .waitCf => (((c.put data).close).fail .InterruptedWithSingleFrame, true)
+    | .ff len data _ =>
+      match c.rxState with
+      | .idle => (start maxLen { c with rxFrameLen := 0 } len data d.rxDl, false)
+      | .waitCf => ((start maxLen c len data d.rxDl).fail .InterruptedWithFirstFrame, false)
+    | .cf sn data =>
+      match c.rxState with
+      | .idle => (({ c with rxFrameLen := 0 } : RxCore).fail .UnexpectedConsecutiveFrame, false)
+      | .waitCf =>
+        if sn = (c.lastSeq + 1) % 16 then
+          let btr := c.rxFrameLen - c.rxBuf.length
+          if some d.rxDl != c.actualRxdl && d.rxDl < btr then (c.fail .ChangingInvalidRXDL, false)
+          else
+            let c := { c with lastSeq := sn, rxBuf := c.rxBuf ++ data.take btr }
+            if c.rxBuf.length ≥ c.rxFrameLen then ((c.put c.rxBuf).close, true)
+            else (c, false)
+        else (c.close.fail .WrongSequenceNumber, false)
+end RxCore
+
+namespace State
+
+/-- the receive-side projection of a layer -/
+def rxCore (s : State) : RxCore :=
+  { rxState := s.rxState, rxBuf := s.rxBuf, rxFrameLen := s.rxFrameLen, lastSeq := s.lastSeq,
+    actualRxdl := s.actualRxdl, rxQueue := s.rxQueue, heard := s.log.filterMap heardOf }
+
+theorem rxCore_startReception (s : State) (len : Nat) (data : Bytes) (rxDl : Nat) :
+    (s.startReception len data rxDl).1.rxCore =
+      RxCore.start s.cfg.maxFrameSize s.rxCore len data rxDl := by
+  unfold startReception RxCore.start
+  simp only []
+  repeat' split
+  all_goals simp_all [rxCore, RxCore.fail, RxCore.close, heardOf, rxErr, stopReceiving, State.error, emit,
+    requestFc, startRxCfTimer]
+
+theorem rxCore_error (s : State) (c : Err) (h : rxErr c = true) :
+    (s.error c).rxCore = s.rxCore.fail c := by
+  simp [rxCore, State.error, emit, heardOf, h, RxCore.fail]
+
+/-- `_process_rx`, seen through the projection, is the reference receiver: it depends on nothing but
+    the reassembly state, the receive address prefix and `max_frame_size` -/
+theorem rxCore_processRx (s : State) (m : CanMsg) :
+    (s.processRx m).1.rxCore = (RxCore.step s.addr.rx.rxPrefixSize s.cfg.maxFrameSize s.rxCore m).1 ∧
+    (s.processRx m).2.2 = (RxCore.step s.addr.rx.rxPrefixSize s.cfg.maxFrameSize s.rxCore m).2 := by
+  unfold processRx RxCore.step
+  cases hd : decode m.data s.addr.rx.rxPrefixSize with
+  | none => simp [rxCore, RxCore.fail, RxCore.close, heardOf, rxErr, stopReceiving, State.error, emit]
+  | some d =>
+    simp only []
+    cases hp : d.pdu with
+    | fc st bs stm => simp [rxCore]
+    | sf len data esc =>
+      simp only []
+      cases hs : s.rxState <;>
+      simp only [rxCore, hs] <;> split <;>
+      simp [rxCore, RxCore.fail, RxCore.close, RxCore.put, heardOf, rxErr, stopReceiving, State.error, emit,
+        deliver, hs]
+    | ff len data esc =>
+      simp only []
+      have hc : s.rxCore.rxState = s.rxState := rfl
+      rw [hc]
+      cases hs : s.rxState
+      · simp only []
+        refine ⟨(rxCore_startReception _ _ _ _).trans ?_, trivial⟩
+        simp [rxCore, hs]
+      · simp only []
+        refine ⟨?_, trivial⟩
+        rw [rxCore_error _ _ rfl, rxCore_startReception]
+    | cf sn data =>
+      simp only []
+      cases hs : s.rxState
+      · simp [rxCore, RxCore.fail, heardOf, rxErr, State.error, emit, hs]
+      · simp only [rxCore, hs]
+        repeat' split
+        all_goals simp_all [rxCore, RxCore.fail, RxCore.close, RxCore.put, heardOf, rxErr, stopReceiving,
+          State.error, emit, deliver, startRxCfTimer, requestFc]
+        all_goals omega
+
+end State
+namespace State
+
+/-! ## where N_Bs is started: only ever at the current instant -/
+
+/-- from `s` to `s'` (same instant, same configuration) the N_Bs timer was left alone, stopped, or
+    started now with the configured timeout -/
+def FcStep (s s' : State) : Prop :=
+  s'.now = s.now ∧ s'.cfg = s.cfg ∧
+  (s'.timerFc = s.timerFc ∨ s'.timerFc.start = none ∨
+    s'.timerFc = { start := some s.now, timeout := s.cfg.tFc })
+
+theorem FcStep.refl (s : State) : FcStep s s := ⟨rfl, rfl, Or.inl rfl⟩
+
+theorem FcStep.trans {s s' s'' : State} (h1 : FcStep s s') (h2 : FcStep s' s'') : FcStep s s'' := by
+  unfold FcStep at *
+  grind
+
+theorem FcStep_stopSending (s : State) (b : Bool) : FcStep s (s.stopSending b) := by
+  simp [FcStep, stopSending_fc, Timer.stop]
+
+theorem FcStep_consumeActive (s : State) (r : Req) (n : Nat) (e : Bool) :
+    FcStep s (s.consumeActive r n e).1 := by
+  simp [FcStep, consumeActive_fc]
+
+theorem FcStep_handleFc (s : State) (f : FcFrame) : FcStep s (s.handleFc f) := by
+  unfold handleFc
+  simp only []
+  repeat' split
+  all_goals simp_all [FcStep, stopSending_fc, State.error, emit, startRxFcTimer, Timer.stop]
+
+theorem FcStep_startTx (s : State) (r : Req) (a : Nat) : FcStep s (s.startTx r a).1 := by
+  unfold startTx
+  simp only []
+  repeat' split
+  all_goals simp_all [FcStep, consumeActive_fc, stopSending_fc, State.error, emit, State.raise,
+    startRxFcTimer, Timer.stop]
+
+theorem FcStep_readTxQueue (s : State) (a : Nat) (l : List Req) : FcStep s (s.readTxQueue a l).1 := by
+  induction l generalizing s with
+  | nil => simp [readTxQueue, FcStep]
+  | cons r rest ih =>
+    unfold readTxQueue
+    simp only []
+    split
+    · exact FcStep.trans (by simp [FcStep, emit]) (ih _)
+    · exact FcStep.trans (by simp [FcStep]) (FcStep_startTx _ _ _)
+
+theorem FcStep_transmitCf (s : State) (a : Nat) : FcStep s (s.transmitCf a).1 := by
+  unfold transmitCf
+  simp only []
+  repeat' split
+  all_goals simp_all [FcStep, consumeActive_fc, stopSending_fc, State.error, emit, State.raise,
+    startRxFcTimer, Timer.stop]
+
+theorem FcStep_txFc (s : State) : FcStep s s.txFc.1 := by
+  have h0 : FcStep s ({ s with lastFc := none } : State) := by simp [FcStep]
+  unfold txFc
+  simp only []
+  split
+  · split
+    · refine h0.trans ((FcStep_stopSending _ false).trans ?_)
+      simp [FcStep, State.error, emit]
+    · exact h0.trans (FcStep_handleFc _ _)
+  · exact h0
+
+theorem FcStep_txTimeout (s : State) : FcStep s s.txTimeout := by
+  unfold txTimeout; split
+  · exact FcStep.trans (s' := s.error .FlowControlTimeout) (by simp [FcStep, State.error, emit])
+      (FcStep_stopSending _ _)
+  · exact FcStep.refl _
+
+theorem FcStep_txPend (s : State) : FcStep s s.txPend.1 := by
+  unfold txPend startRxCfTimer State.raise
+  simp only []
+  repeat' split
+  all_goals simp [FcStep]
+
+theorem FcStep_txFsm (s : State) (a : Nat) : FcStep s (s.txFsm a).1 := by
+  have hd : FcStep s s.txDeplete := by
+    unfold txDeplete
+    generalize (decide (s.txState ≠ .idle) && (match s.active with | some r => r.depleted | none => false) && s.standby.isNone) = c
+    cases c
+    · exact FcStep.refl _
+    · exact FcStep_stopSending _ _
+  have hc : FcStep s.txDeplete (s.txDeplete.txCore a).1 := by
+    generalize s.txDeplete = t
+    unfold txCore
+    cases hs : t.txState <;> simp only []
+    · exact FcStep_readTxQueue _ _ _
+    · exact FcStep.refl _
+    · exact FcStep_transmitCf _ _
+    all_goals
+      cases hb : t.standby <;> simp only []
+      · exact FcStep.refl _
+      · split
+        · first
+            | (simp only [hs, reduceCtorEq, ite_false]
+               exact FcStep.trans (s' := ({ t with standby := none } : State)) (by simp [FcStep])
+                 (FcStep_stopSending _ _))
+            | simp [FcStep, startRxFcTimer]
+        · exact FcStep.refl _
+  unfold txFsm
+  split
+  · simp [FcStep, State.raise]
+  · refine (hd.trans hc).trans ?_
+    unfold txFinish
+    repeat' split
+    all_goals simp [FcStep]
+
+theorem FcStep_processTx (s : State) : FcStep s s.processTx.1 := by
+  rw [processTx_eq]
+  have h1 := FcStep_txPend s
+  split
+  · next h' => rw [h'] at h1; exact h1
+  · next h' => rw [h'] at h1; exact h1
+  · next s1 h' =>
+    rw [h'] at h1
+    have h2 := FcStep_txFc s1
+    split
+    · next h'' => rw [h''] at h2; exact h1.trans h2
+    · next h'' =>
+      rw [h''] at h2
+      exact (h1.trans h2).trans ((FcStep_txTimeout _).trans (FcStep_txFsm _ _))
+
+/-- whenever a pass enters WAIT_FC (First Frame sent — directly or out of rate-limiter standby —, block
+    finished) N_Bs is started at that instant -/
+theorem processTx_enters_waitFc (s : State) (h : TxTimerInv s) (hs : s.txState ≠ .waitFc)
+    (hw : s.processTx.1.txState = .waitFc) :
+    s.processTx.1.timerFc = { start := some s.now, timeout := s.cfg.tFc } := by
+  have h' := TxTimerInv_processTx s h
+  obtain ⟨_, _, h3⟩ := FcStep_processTx s
+  have a := h.1 hs
+  have b := h'.2.1 hw
+  rcases h3 with h3 | h3 | h3
+  · rw [h3] at b; exact absurd a b
+  · exact absurd h3 b
+  · exact h3
+
+end State
+namespace State
+
+theorem heardOf_TxPassEv (now : Nat) (e : Ev) (h : TxPassEv now e) : heardOf e = none := by
+  rcases h with h | h
+  · cases e <;> simp_all [TxEv, heardOf]
+    rename_i t c
+    cases c <;> simp_all [txErr, rxErr]
+  · subst h; simp [heardOf, rxErr]
+
+/-- a transmit pass is invisible through the receive-side projection -/
+theorem rxCore_processTx (s : State) : s.processTx.1.rxCore = s.rxCore := by
+  have h1 := rxView_processTx_of_txPend s
+  have h2 : s.txPend.1.rxState = s.rxState ∧ s.txPend.1.rxBuf = s.rxBuf ∧
+      s.txPend.1.rxFrameLen = s.rxFrameLen ∧ s.txPend.1.lastSeq = s.lastSeq ∧
+      s.txPend.1.actualRxdl = s.actualRxdl ∧ s.txPend.1.rxQueue = s.rxQueue := by
+    unfold txPend startRxCfTimer State.raise
+    simp only []
+    repeat' split
+    all_goals simp
+  simp only [rxView, RxView.mk.injEq] at h1
+  obtain ⟨new, hl, hp⟩ := LogExt_processTx s
+  have h3 : s.processTx.1.log.filterMap heardOf = s.log.filterMap heardOf := by
+    rw [hl, List.filterMap_append]
+    have : new.filterMap heardOf = [] := by
+      rw [List.filterMap_eq_nil_iff]
+      intro e he; exact heardOf_TxPassEv _ e (hp e he)
+    rw [this]; rfl
+  simp only [rxCore, h3]
+  obtain ⟨_, _, _, a1, a2, a3, a4, _, a5, _, _, _, a6⟩ := h1
+  rw [a1, a2, a3, a4, a5, a6, h2.1, h2.2.1, h2.2.2.1, h2.2.2.2.1, h2.2.2.2.2.1, h2.2.2.2.2.2]
+
+/-- configuration and address never change -/
+theorem processRx_env (s : State) (m : CanMsg) :
+    (s.processRx m).1.cfg = s.cfg ∧ (s.processRx m).1.addr = s.addr := by
+  have := txView_processRx s m
+  simp only [txView, TxView.mk.injEq] at this
+  exact ⟨this.1, this.2.1⟩
+
+theorem processTx_env (s : State) : s.processTx.1.cfg = s.cfg ∧ s.processTx.1.addr = s.addr := by
+  have h1 := rxView_processTx_of_txPend s
+  simp only [rxView, RxView.mk.injEq] at h1
+  have h2 : s.txPend.1.cfg = s.cfg ∧ s.txPend.1.addr = s.addr := by
+    unfold txPend startRxCfTimer State.raise
+    simp only []
+    repeat' split
+    all_goals simp
+  exact ⟨h1.1.trans h2.1, h1.2.1.trans h2.2⟩
+
+/-- a layer observing a sequence of frames addressed to it, a transmit pass after each (no time passes:
+    no N_Cr timeout intervenes) -/
+def observe (s : State) : List CanMsg → State
+  | [] => s
+  | m :: ms => observe ((s.processRx m).1.processTx.1) ms
+
+theorem rxCore_observe (s1 s2 : State) (ms : List CanMsg) (hc : s1.rxCore = s2.rxCore)
+    (hp : s1.addr.rx.rxPrefixSize = s2.addr.rx.rxPrefixSize)
+    (hm : s1.cfg.maxFrameSize = s2.cfg.maxFrameSize) :
+    (s1.observe ms).rxCore = (s2.observe ms).rxCore := by
+  induction ms generalizing s1 s2 with
+  | nil => exact hc
+  | cons m ms ih =>
+    unfold observe
+    apply ih
+    · rw [rxCore_processTx, rxCore_processTx, (rxCore_processRx s1 m).1, (rxCore_processRx s2 m).1,
+        hc, hp, hm]
+    · rw [(processTx_env _).2, (processTx_env _).2, (processRx_env s1 m).2, (processRx_env s2 m).2, hp]
+    · rw [(processTx_env _).1, (processTx_env _).1, (processRx_env s1 m).1, (processRx_env s2 m).1, hm]
 
 end State
 end Isotp
